@@ -204,7 +204,7 @@ func init() {
 			}
 			if r.TimedOut {
 				if r.NoProgress {
-					x.Viol("hang:"+hangSignature(r.Dump), fmt.Sprintf("the program did not finish and made no progress over three samples:\n%s\ncrash text: %s", c.Block, trunc(r.OSErr, 800)), c, trunc(r.Dump, 3000), "finishes")
+					x.Viol("hang:"+hangSignature(r.Dump), fmt.Sprintf("the program did not finish and made no progress over three samples:\n%s\ncrash text: %s", c.Block, trunc(r.OSErr, 800)), c, trunc(r.Dump, 60000), "finishes")
 					x.hardFailure()
 				} else {
 					x.Inconclusive("watchdog expired while the program was still making progress")
